@@ -270,6 +270,11 @@ class SymEx:
             if x.rank != 2 or len(node.args) != 1 or node.keywords:
                 self.fail(node, "np.triu form")
             return Sym.of(2, lambda i, j: f"(if {i} ≤ {j} then {x.app(i, j)} else 0)").fresh()
+        if fn == "np.diff" and len(node.args) == 1 and not node.keywords:
+            x = self.need_sym(node.args[0])
+            if x.rank != 1:
+                self.fail(node, "np.diff of non 1-d value")
+            return Sym.of(1, lambda i: f"({x.app(f'({i} + 1)')} - {x.app(i)})").fresh()
         if fn == "np.sqrt":
             x = self.need_sym(node.args[0])
             return Sym.of(x.rank, lambda *ix: f"(sqrtF {x.app(*ix)})")
@@ -353,11 +358,18 @@ class SymEx:
 
     # ---- statements ---------------------------------------------------------
     def run(self, body: list[ast.stmt]):
-        for st in body:
+        for k, st in enumerate(body):
             if self.env is RAISES:
                 break
             if self.returned is not None:
                 self.fail(st, "statement after return")
+            if (isinstance(st, ast.If) and not st.orelse and st.body
+                    and isinstance(st.body[-1], (ast.Return, ast.Raise)) and body[k + 1:]):
+                # early exit: the rest of the block is the else-branch
+                st = ast.If(test=st.test, body=st.body, orelse=body[k + 1:])
+                ast.copy_location(st, body[k])
+                self.stmt(st)
+                break
             self.stmt(st)
         return self.returned
 
